@@ -157,12 +157,21 @@ def check_c19(tier):
         root = os.path.join(base, "s%d" % n)
         # how the client NAMES the workspace: one session in five reaches it through a symbolic link (root and document URIs
         # carry the link's name); the notifications must come back for exactly the URIs the client opened
-        if int(hashlib.md5(json.dumps([c["cfg"], c["hist"], reopen], sort_keys=True, default=sorted).encode()).hexdigest(), 16) % 5 == 0:
+        hk = int(hashlib.md5(json.dumps([c["cfg"], c["hist"], reopen], sort_keys=True, default=sorted).encode()).hexdigest(), 16) % 5
+        if hk == 0:
             os.makedirs(root + "-real", exist_ok=True)
             os.symlink(root + "-real", root)
             # the documents EXIST on disk there (empty of fixtures and tests), so that the server can resolve their real location
             for fn in FNAME.values():
                 with open(os.path.join(root + "-real", fn), "w") as fh:
+                    fh.write("# saved empty\n")
+        elif hk == 1:
+            # another session in five: a folder name that URIs can spell in several legal ways (space, parentheses, a non-ASCII
+            # letter, `+`, `'`); this client percent-encodes everything but unreserved characters; documents exist on disk
+            root = os.path.join(root, "proj (copy) caf\u00e9 a+b 'x'")
+            os.makedirs(root, exist_ok=True)
+            for fn in FNAME.values():
+                with open(os.path.join(root, fn), "w") as fh:
                     fh.write("# saved empty\n")
         else:
             os.makedirs(root, exist_ok=True)
@@ -198,7 +207,7 @@ def check_c19(tier):
             if os.path.islink(root):
                 os.unlink(root)
                 shutil.rmtree(root + "-real", ignore_errors=True)
-            shutil.rmtree(root, ignore_errors=True)
+            shutil.rmtree(os.path.join(base, "s%d" % n), ignore_errors=True)
         return {"published": out, "alive": alive}
 
     # second pass (close / reopen): histories that come back to a document after the other one was notified
